@@ -35,7 +35,28 @@ class State:
         self.preemptions = 0
         self.switch_log: list = []
         self.fingerprints: set = set()
+        self.forced_switches = 0
         self.error = None
+
+
+class Hang(HarnessError):
+    """No worker made progress within the timeout: a thread is blocked on a real lock (the library
+    has no blocking operation of its own, so this is reported as a violation by C14)."""
+
+
+HANG_TIMEOUT = 20
+BLOCK_POLL = 0.02      # seconds between looks at a thread that holds the baton but makes no steps
+BLOCK_CONFIRM = 5      # consecutive polls in kernel state 'S' (sleeping) before it counts as blocked
+
+
+def _thread_sleeping(native_id) -> bool:
+    """Linux: the thread's scheduler state from /proc (S = sleeping, i.e. waiting on a lock)."""
+    try:
+        with open(f"/proc/self/task/{native_id}/stat") as f:
+            data = f.read()
+        return data[data.rindex(")") + 2] == "S"
+    except Exception:  # noqa: BLE001
+        return False
 
 
 class Runner:
@@ -54,8 +75,14 @@ class Runner:
         self.ch = None
         self.st = None
         self.broken = False
+        self.running = None          # thread that holds the baton
+        self.blocked: set = set()    # threads stuck in a REAL lock held by a preempted thread
+        self.native = [None] * n
         self.atomic = [0] * n
-        self.threads = [threading.Thread(target=self._loop, args=(i,), daemon=True) for i in range(n)]
+        # all workers carry the SAME thread name: names are not unique identifiers, and state keyed
+        # by them must not be shared
+        self.threads = [threading.Thread(target=self._loop, args=(i,), daemon=True, name="worker")
+                        for i in range(n)]
         for t in self.threads:
             t.start()
 
@@ -88,7 +115,14 @@ class Runner:
 
     def _point(self, tid, frame):
         st = self.st
-        if st.error is not None or self.atomic[tid]:
+        if st.error is not None:
+            return
+        if self.running != tid:
+            # this thread was blocked on a real lock, lost the baton meanwhile, and has now been
+            # woken by the lock's release: it is runnable again but must wait for its turn
+            self.blocked.discard(tid)
+            self.go[tid].acquire()
+        if self.atomic[tid]:
             return
         st.steps[tid] += 1
         st.total_steps += 1
@@ -96,7 +130,7 @@ class Runner:
             st.error = f"horizon exceeded ({STEP_LIMIT} steps): livelock?"
             return
         fin = st.finished
-        others = [i for i in range(self.n) if i != tid and not fin[i]]
+        others = [i for i in range(self.n) if i != tid and not fin[i] and i not in self.blocked]
         if not others:
             return
         code = frame.f_code
@@ -118,8 +152,34 @@ class Runner:
             if self.fingerprint is not None:
                 st.fingerprints.add(self.fingerprint())
             st.switch_log.append((tid, st.steps[tid], to))
-            self.go[to].release()
-            self.go[tid].acquire()
+            self._handoff(tid, to)
+
+    def _handoff(self, me, to):
+        """Give the baton to ``to`` and wait for it to come back.  If ``to`` turns out to be stuck in
+        a real lock (kernel state 'sleeping', no scheduling steps) the baton is taken back: blocking
+        is a forced context switch, not a deadlock - the lock holder must be able to run on."""
+        st = self.st
+        self.running = to
+        self.go[to].release()
+        idle = 0
+        last = st.steps[to]
+        while not self.go[me].acquire(timeout=BLOCK_POLL):
+            if self.running != to or st.finished[to]:
+                idle = 0
+                continue
+            if st.steps[to] != last:
+                last, idle = st.steps[to], 0
+                continue
+            nid = self.native[to]
+            if nid is not None and _thread_sleeping(nid):
+                idle += 1
+            else:
+                idle = 0
+            if idle >= BLOCK_CONFIRM:
+                self.blocked.add(to)
+                st.forced_switches += 1
+                self.running = me
+                return
 
     # ---- workers -------------------------------------------------------------------------
     def _loop(self, tid):
@@ -128,6 +188,7 @@ class Runner:
             if self.stop:
                 return
             st = self.st
+            self.native[tid] = threading.get_native_id()
             tracer = self._tracer(tid)
             sys.settrace(tracer)
             try:
@@ -143,24 +204,36 @@ class Runner:
             if not rest:
                 self.done_evt.release()
                 continue
+            # threads stuck in a real lock become runnable once it is released: wait for them
+            waited = 0.0
+            while all(i in self.blocked for i in rest) and waited < HANG_TIMEOUT:
+                import time
+                time.sleep(BLOCK_POLL)
+                waited += BLOCK_POLL
+            runnable = [i for i in rest if i not in self.blocked]
+            if not runnable:
+                continue  # genuinely stuck: run() reports the hang after its timeout
             c = 0
             if st.error is None:
                 try:
-                    c = self.ch.choose(f"t{tid}:finished", len(rest), free=True)
+                    c = self.ch.choose(f"t{tid}:finished", len(runnable), free=True)
                 except BaseException as e:  # noqa: BLE001
                     st.error = repr(e)
-            self.go[rest[c]].release()
+            self.running = runnable[c]
+            self.go[runnable[c]].release()
 
     def run(self, ops, ch: choice.Chooser):
         if self.broken:
             raise HarnessError("runner is broken")
         self.ops, self.ch, self.st = ops, ch, State(self.n)
         self.line_hits = {}
+        self.blocked = set()
         first = ch.choose("start", self.n, free=True)
+        self.running = first
         self.go[first].release()
-        if not self.done_evt.acquire(timeout=120):
+        if not self.done_evt.acquire(timeout=HANG_TIMEOUT):
             self.broken = True
-            raise HarnessError(f"deadlock or hang: finished={self.st.finished}")
+            raise Hang(f"deadlock or hang: finished={self.st.finished} steps={self.st.steps}")
         if self.st.error:
             self.broken = True
             raise HarnessError(self.st.error)
